@@ -283,6 +283,12 @@ def build_driver(timeout=1800):
         return drv, out + out2
 
 
+def config_of(harness_bin):
+    """build/cargo/<config>/<profile>/verif-harness -> <config>"""
+    parts = os.path.normpath(harness_bin).split(os.sep)
+    return parts[parts.index("cargo") + 1] if "cargo" in parts else "default"
+
+
 def canon(line):
     """Canonicalise an output line: drop the informational ` # ...` suffix."""
     i = line.find(" # ")
@@ -570,6 +576,7 @@ class Ctx:
         """Run impl and model on `cases`; record disagreements; returns list of
         (case, impl_out, model_out)."""
         t0 = time.time()
+        cfgname = config_of(harness_bin)
         impl = run_cases(harness_bin, cases, tag=self.pid + "i")
         model = run_cases(driver_bin, cases, extra_args=list(flags), tag=self.pid + "m")
         st = self.suites.setdefault(suite, {"cases": 0, "disagreements": 0, "outcomes": {}, "coq_cross_checked": 0})
@@ -585,11 +592,11 @@ class Ctx:
                 self.nontrivial.add(hashlib.sha256(c.encode()).digest()[:12])
             if i != m:
                 st["disagreements"] += 1
-                self.correspondence_failures.append({"suite": suite, "case": c, "impl": i, "model": m, "flags": list(flags)})
+                self.correspondence_failures.append({"suite": suite, "case": c, "impl": i, "model": m, "flags": list(flags), "config": cfgname})
             if predicate is not None:
                 v = predicate(c, i, m)
                 if v:
-                    self.violations.append({"suite": suite, "case": c, "impl": i, "model": m, "what": v, "flags": list(flags)})
+                    self.violations.append({"suite": suite, "case": c, "impl": i, "model": m, "what": v, "flags": list(flags), "config": cfgname})
         # in-Coq cross-check of a deterministic sample of the driver's outputs
         if coq_sample and rows:
             step = max(1, len(rows) // coq_sample)
@@ -616,7 +623,8 @@ class Ctx:
             v = predicate(c, i)
             if v:
                 st["property_failures"] += 1
-                self.violations.append({"suite": suite, "case": c, "impl": i, "what": v})
+                self.violations.append({"suite": suite, "case": c, "impl": i, "what": v, "config": config_of(harness_bin),
+                                        "flags": list(__import__("configs").CONFIGS.get(config_of(harness_bin), {}).get("flags", []))})
         for c, i in list(zip(cases, impl))[:keep_samples]:
             if len(self.samples) < 24:
                 self.samples.append({"suite": suite, "case": c[:300], "impl": i[:300]})
